@@ -5,8 +5,11 @@ from .core import SymInt, is_sym
 class SymTD:
     """Integer-microsecond model of datetime.timedelta for symbolic operands.
 
-    Only the operations jade/hpc/hpc_submitter.py performs: construction from
-    seconds/minutes/hours, +, * by an integer, and ordering."""
+    The arithmetic, ordering and truth-value protocol of timedelta over exact integers:
+    construction from the keyword units, +, -, unary -, abs, * and // by an integer, // and % by a
+    duration, ordering, ==/!=, truth value (timedelta(0) is falsy), total_seconds.  (Session 2: the truth
+    value and subtraction were missing and a seeded change relying on `if remaining:` went unnoticed by
+    the kernel; any other operation raises TypeError, which makes the obligation inconclusive, not silent.)"""
 
     __slots__ = ("us",)
 
@@ -35,6 +38,36 @@ class SymTD:
         return SymTD(_us=self.us * o)
 
     __rmul__ = __mul__
+
+    def __rsub__(self, o):
+        if not isinstance(o, SymTD):
+            return NotImplemented
+        return SymTD(_us=o.us - self.us)
+
+    def __neg__(self):
+        return SymTD(_us=-self.us)
+
+    def __pos__(self):
+        return self
+
+    def __abs__(self):
+        return SymTD(_us=self.us if self.us >= 0 else -self.us)
+
+    def __bool__(self):
+        return bool(self.us != 0)
+
+    def __floordiv__(self, o):
+        if isinstance(o, SymTD):
+            return self.us // o.us
+        return SymTD(_us=self.us // o)
+
+    def __mod__(self, o):
+        if not isinstance(o, SymTD):
+            return NotImplemented
+        return SymTD(_us=self.us % o.us)
+
+    def __ne__(self, o):
+        return not isinstance(o, SymTD) or self.us != o.us
 
     def __lt__(self, o):
         return self.us < o.us
